@@ -13,7 +13,7 @@ open Conv
 let err_name (e : Format.err) = match e with
   | Format.EOF -> "eof" | Format.UnexpectedEOF -> "ueof" | Format.InvalidFormat -> "invalid"
   | Format.Unsupported -> "unsupported" | Format.NotIndex -> "notindex" | Format.DigestMismatch -> "digest"
-  | Format.NoTable -> "notable" | Format.ChunkTooLarge -> "toolarge" | Format.DecreasingOffset -> "decreasing" | Format.TooShort -> "tooshort"
+  | Format.NoTable -> "notable" | Format.ChunkTooLarge -> "toolarge" | Format.DecreasingOffset -> "decreasing" | Format.TooShort -> "tooshort" | Format.BadHello -> "badhello" | Format.Aborted -> "aborted" | Format.StoreFailed -> "storefailed"
   | Format.OutOfFuel -> "outoffuel"
 
 let panic_name (p : Format.panic) = match p with
